@@ -53,6 +53,11 @@ def gen_ops(rng, n, unix, buffered, cap):
     return ",".join(ops) or "-"
 
 
+def ur_cases():
+    """UDP sinks over a socket connected to a closed port"""
+    return ["UR " + spec for spec in ("u 6 20", "u 9 300", "16 8 9", "24 10 7", "64 12 20", "d 7 200", "d 5 600", "8 6 30")]
+
+
 def gen_cases(rng, n):
     cases = []
     # fixed small ones first
@@ -92,6 +97,7 @@ def gen_cases(rng, n):
     # a non-blocking Unix socket whose listener does not read: WouldBlock once its queue is full
     for spec in ("u 40 30", "u 120 700", "16 80 10", "64 160 20", "512 400 90"):
         cases.append("XW " + spec)
+    cases += ur_cases()
     for _ in range(n):
         fam = rng.choice(["U", "X", "BU", "BX", "BU", "BX", "US", "UT", "BUS", "BUT"])
         q = "q1" if rng.random() < 0.25 else "q0"
@@ -110,6 +116,8 @@ def xw_as_model_case(case, obs):
     if t[0] in ("XS", "BXS"):
         ops = ",".join(o for o in t[3].split(",") if o != "m")
         return ("X b q0 " if t[0] == "XS" else "BX %s q0 " % t[1]) + ops
+    if t[0] == "UR":
+        return "UA 0 -"          # judged on the implementation's observation only
     if t[0] != "XW":
         return case
     if t[1] != "u" or obs.startswith("HARNESS-PANIC"):
@@ -134,10 +142,61 @@ def xw_views(case, iobs, mobs):
     return iv + "|A:" + ip.get("A", ""), mv + "|A:" + ip.get("A", "")
 
 
+def judge_ur(t, obs):
+    """a UDP sink over a socket connected to a closed port (ECONNREFUSED on every other send): every call returns Ok
+    or the socket's error, the statistics account for every attempt, what arrives once a listener is there is whole
+    lines of emitted metrics, each at most once; a flush with the listener present succeeds (the first may still
+    collect a pending bounce)"""
+    bad = []
+    if obs.startswith("HARNESS-PANIC"):
+        return [(p, "connected UDP socket, refused sends: " + obs[:160]) for p in ("C07", "C13", "C14")]
+    parts = dict(x.split(":", 1) for x in obs.split("|"))
+    res = parts["R"].split(",")
+    fl = parts["F"].split(",")
+    dg = [bytes.fromhex(x) for x in parts["D"].split(";")] if parts["D"] else []
+    st = [int(x) for x in parts["S"].split(".")]
+    n, ln = int(t[2]), int(t[3])
+    ms = [("r%d.%s" % (i, "x" * max(0, ln - 3 - len(str(i))))).encode() for i in range(n)]
+    if any(not re.fullmatch(r"k\d+|e\d+", r) for r in res + [f for f in fl if f != "norebind"]):
+        bad.append(("C07", "a call neither returned Ok nor an error: %s / %s" % (parts["R"], parts["F"])))
+        return bad
+    for m, r in zip(ms, res):
+        if r[0] == "k" and int(r[1:]) != len(m):
+            bad.append(("C13", "emit of %d bytes returned Ok(%s)" % (len(m), r[1:])))
+    if t[1] == "u":
+        okm = [m for m, r in zip(ms, res) if r[0] == "k"]
+        erm = [m for m, r in zip(ms, res) if r[0] == "e"]
+        want = [sum(map(len, okm)), len(okm), sum(map(len, erm)), len(erm)]
+        if st != want:
+            bad.append(("C14", "statistics %s, expected %s (%d sends accepted, %d refused)" % (st, want, len(okm), len(erm))))
+        if dg:
+            bad.append(("C13", "an unbuffered sink sent %d datagrams on flush / drop" % len(dg)))
+    else:
+        cap = 512 if t[1] == "d" else int(t[1])
+        if st[1] + st[3] != int(parts["A"]):
+            bad.append(("C14", "packets_sent + packets_dropped = %d but %d sends were attempted" % (st[1] + st[3], int(parts["A"]))))
+        seen = []
+        for d in dg:
+            if d in ms and len(d) + 1 > cap:
+                seen.append(d)
+                continue
+            if not d.endswith(b"\n") or len(d) > cap:
+                bad.append(("C07", "after refused sends a datagram is not whole lines within the capacity: %r" % d[:80]))
+                continue
+            seen += d[:-1].split(b"\n")
+        if any(x not in ms for x in seen) or len(set(seen)) != len(seen):
+            bad.append(("C07", "after refused sends the listener received lines that were not emitted, or twice: %r" % seen[:6]))
+        if "norebind" not in fl and fl[-1][0] != "k":
+            bad.append(("C07", "flush with the listener present failed twice in a row: %s" % parts["F"]))
+    return bad
+
+
 def judge(case, obs):
     """clauses of C13 / C14 on the implementation's observation (reference from the property statements)"""
     bad = []
     t = case.split()
+    if t[0] == "UR":
+        return judge_ur(t, obs)
     if obs.startswith("HARNESS-PANIC"):
         return [("C13", obs[:200]), ("C14", obs[:200])]
     if t[0] in ("ST", "UC"):
@@ -192,6 +251,8 @@ def judge(case, obs):
             if st[1] + st[3] != att:
                 bad.append(("C14", "packets_sent + packets_dropped = %d but %d sends were attempted" % (st[1] + st[3], att)))
         return bad
+    if t[0] == "UR":
+        return judge_ur(t, obs)
     if t[0] in ("XS", "BXS"):
         parts = dict(x.split(":", 1) for x in obs.split("|"))
         seen = [int(x) for x in parts["N"].split(",")]
@@ -335,6 +396,8 @@ def run_sock_check(prop, tier, seed):
         for i, c in enumerate(cases):
             if c.startswith("XW"):
                 impl[i], model[i] = xw_views(c, impl[i], model[i])
+            elif c.startswith("UR"):
+                model[i] = impl[i]                 # judged, not modelled
             elif c.startswith("XS") or c.startswith("BXS"):
                 # which listener got what is judged, not modelled; the `-` of op m is not in the model's results
                 ip = dict(x.split(":", 1) for x in impl[i].split("|"))
